@@ -74,7 +74,8 @@ def raws_to_wbs(raws: List[TaskRaw]) -> WBS:
             end=raw.end,
             estimate=raw.estimate,
             spent=raw.spent,
-            milestone=raw.milestone
+            milestone=raw.milestone,
+            min_start=raw.__dict__.get('min_start')
         )
 
         for k in raw.__dict__.keys():
